@@ -835,7 +835,12 @@ pub fn main_with(spec: PropSpec, build: impl Fn(&mut Jobs, &Args), finish: impl 
             let key = format!("{}:{}", f.check, f.class);
             let mut msg = f.msg.clone();
             if msg.len() > 300 {
-                msg.truncate(300);
+                // cut at a character boundary: messages quote generated (non-ASCII) text
+                let mut cut = 300;
+                while !msg.is_char_boundary(cut) {
+                    cut -= 1;
+                }
+                msg.truncate(cut);
                 msg.push_str("...");
             }
             println!("failure in rule {} bits {}: check={} class={} {}", job.rule, job.bits, f.check, f.class, msg);
